@@ -156,7 +156,7 @@ func TestWorker(t *testing.T) {
 			for j, d := range tp.Rec {
 				labels[j] = d.L
 			}
-			f := Failure{Viol: v, Case: uint64(i), Tape: tp.Values(), Decoded: r.Decoded, MinFrom: len(tp.Rec), Count: 1}
+			f := Failure{Viol: v, Case: uint64(i), Tape: tp.Values(), Decoded: r.Decoded, MinFrom: len(tp.Rec), Count: 1, Worker: wid, NWorkers: nw, From: from}
 			left := minTotal - minSpent
 			if minSpent >= minTotal {
 				left = 0
@@ -224,6 +224,12 @@ func TestReplay(t *testing.T) {
 		os.Exit(2)
 	}
 	ctx := &Ctx{Prop: rf.Property, Tier: rf.Tier, Engine: spec.Engine, Replay: true}
+	if rf.Prelude != nil {
+		// re-create the process history: the cases this worker ran before
+		for i := rf.Prelude.From + rf.Prelude.Worker; i < int64(rf.Case); i += rf.Prelude.NWorkers {
+			spec.Fn(t, simrt.NewTape(rf.Seed, uint64(i)), ctx)
+		}
+	}
 	var tp *simrt.Tape
 	if rf.Tape != nil {
 		tp = simrt.ReplayTape(rf.Tape)
